@@ -716,6 +716,31 @@ class Tracer:
         return t, paths
 
     # ------------------------------------------------------------------------------------------
+    def _record_fields(self, call, fi):
+        """the field expressions, in declaration order, of `Record(...)` when Record is a class-based NamedTuple of the module whose fields
+        all have literal defaults or are given - else None"""
+        if not (isinstance(call, ast.Call) and isinstance(call.func, ast.Name) and not any(isinstance(a, ast.Starred) for a in call.args) and all(k.arg for k in call.keywords)):
+            return None
+        ci = fi.module.classes.get(call.func.id) if hasattr(fi.module, 'classes') else None
+        node = getattr(ci, 'node', None)
+        if node is None or not any(unparse(b) in ('NamedTuple', 'typing.NamedTuple') for b in node.bases) or any(isinstance(x, (ast.FunctionDef, ast.AsyncFunctionDef)) and x.name in ('__new__', '__init__') for x in node.body):
+            return None
+        fields = [(st.target.id, st.value) for st in node.body if isinstance(st, ast.AnnAssign) and isinstance(st.target, ast.Name)]
+        given = dict(zip([f for f, _ in fields], call.args))
+        for k in call.keywords:
+            if k.arg in given or k.arg not in [f for f, _ in fields]:
+                return None
+            given[k.arg] = k.value
+        out = []
+        for f, d in fields:
+            if f in given:
+                out.append(given[f])
+            elif isinstance(d, ast.Constant):
+                out.append(d)
+            else:
+                return None
+        return out
+
     def _bind(self, target, v, p, fi, stmt):
         if isinstance(target, ast.Name):
             p.env[target.id] = v
@@ -904,7 +929,18 @@ class Tracer:
                 nxt = []
                 for q, acc in cur:
                     inner = el.value if isinstance(el, ast.Starred) else el
+                    rec = self._record_fields(self._sub(inner, q) if isinstance(inner, ast.Name) and inner.id in q.env else inner, fi) if isinstance(el, ast.Starred) else None
+                    if rec is not None:
+                        # *Record(a, f=b): a private NamedTuple built in place and spread - its fields, in declaration order
+                        parts = [(q, acc)]
+                        for fx in rec:
+                            parts = [(r, a2 + [v]) for q2, a2 in parts for r, v in self._expr(fx, q2, fi, depth)]
+                        nxt.extend(parts)
+                        continue
                     for r, v in self._expr(inner, q, fi, depth):
+                        if isinstance(el, ast.Starred) and v.elems is not None and isinstance(v.ast, (ast.Tuple, ast.List)) and not any(isinstance(x.ast, ast.Starred) for x in v.elems):
+                            nxt.append((r, acc + list(v.elems)))       # *(a, b): spliced
+                            continue
                         if isinstance(el, ast.Starred):
                             v = Val(ast.Starred(value=v.ast, ctx=ast.Load()), tags=v.tags)
                         nxt.append((r, acc + [v]))
